@@ -205,6 +205,69 @@ fn output_shapes(tx: &tir::Tx) -> Vec<(&'static str, tir::Tx)> {
     vec![("no-outputs", none), ("vanishing-outputs", vanishing)]
 }
 
+/// chain-specific directives and the keys the compiler reads from them
+const DIRECTIVES: [(&str, &[&str]); 6] = [
+    ("withdrawal", &["credential", "amount", "redeemer"]),
+    ("vote_delegation_certificate", &["drep", "stake"]),
+    ("plutus_witness", &["version", "script"]),
+    ("native_witness", &["script"]),
+    ("cardano_publish", &["to", "amount", "datum", "version", "script"]),
+    ("treasury_donation", &["coin"]),
+];
+
+/// constants of every kind, with sizes around what hashes, addresses and amounts are expected to have
+fn leaves() -> Vec<(String, tir::Expression)> {
+    use tir::Expression as E;
+    let mut v: Vec<(String, E)> = vec![
+        ("None".into(), E::None),
+        ("Bool".into(), E::Bool(true)),
+        ("String".into(), E::String("0xzz#a".into())),
+        ("String-empty".into(), E::String(String::new())),
+        ("List-empty".into(), E::List(vec![])),
+        ("UtxoRefs-empty".into(), E::UtxoRefs(vec![])),
+        ("UtxoSet-empty".into(), E::UtxoSet(Default::default())),
+        ("Assets-empty".into(), E::Assets(vec![])),
+        ("Assets-amount-is-assets".into(), tirb::assets(vec![tir::AssetExpr { policy: E::None, asset_name: E::None, amount: tirb::assets(vec![tirb::lovelace(5)]) }])),
+        ("Assets-amount-is-bytes".into(), tirb::assets(vec![tir::AssetExpr { policy: E::None, asset_name: E::None, amount: E::Bytes(vec![1]) }])),
+        ("Assets-policy-is-number".into(), tirb::assets(vec![tir::AssetExpr { policy: E::Number(1), asset_name: E::Number(2), amount: E::Number(3) }])),
+        ("Struct".into(), E::Struct(tir::StructExpr { constructor: 200, fields: vec![E::Number(1)] })),
+        ("Map".into(), E::Map(vec![(E::Number(1), E::Number(2))])),
+    ];
+    for n in [0i128, 1, -1, 3, 4, 1 << 32, 1 << 63, 1 << 64, i128::MAX, i128::MIN] {
+        v.push((format!("Number({n})"), E::Number(n)));
+    }
+    for l in [0usize, 1, 4, 27, 28, 29, 32, 33, 56, 57, 58, 64] {
+        v.push((format!("Hash(len {l})"), E::Hash(vec![0x5A; l])));
+        v.push((format!("Bytes(len {l})"), E::Bytes(vec![0x5A; l])));
+        v.push((format!("Address(len {l})"), E::Address(vec![0x01; l])));
+        v.push((format!("Address-stake(len {l})"), E::Address(std::iter::once(0xe0).chain(std::iter::repeat(7).take(l.saturating_sub(1))).collect())));
+    }
+    v
+}
+
+/// a constant transaction with one directive whose `key` holds the leaf and whose other keys hold usual values
+fn directive_tx(name: &str, keys: &[&str], key: &str, leaf: tir::Expression) -> tir::Tx {
+    use tir::Expression as E;
+    let mut tx = tirgen::place(0, tirb::assets(vec![tirb::lovelace(200_000)]));
+    let usual = |k: &str| -> E {
+        match k {
+            "credential" | "stake" => E::Address(crate::common::pipeline::stake_address(6, 0)),
+            "to" => E::Address(base_address(2, 0)),
+            "amount" if name == "withdrawal" => E::Number(10),
+            "amount" => tirb::assets(vec![tirb::lovelace(2_000_000)]),
+            "coin" => E::Number(5),
+            "version" => E::Number(3),
+            "script" => E::Bytes(vec![0x46, 0x01, 0x01, 0x00]),
+            "drep" => E::Bytes(vec![9; 28]),
+            "redeemer" | "datum" => E::None,
+            _ => E::None,
+        }
+    };
+    let data: std::collections::HashMap<String, E> = keys.iter().map(|k| (k.to_string(), if *k == key { leaf.clone() } else { usual(k) })).collect();
+    tx.adhoc.push(tir::AdHocDirective { name: name.to_string(), data });
+    tx
+}
+
 const PROBES: [Probe; 5] = [Probe::Value, Probe::Query, Probe::Fees, Probe::QueryWithValue, Probe::TipSlot];
 
 fn kind_type(k: Kind) -> Type {
@@ -229,7 +292,7 @@ impl Prop for C14 {
         format!(
             "IR level: every tirgen tree ({} contexts{} x 5 probes x {} placements) x every value of the probe's boundary alphabet (37 integers, byte / \
              address lengths {}, utxo-ref txid lengths, 9 wrong-typed values) x 4 stores x 6 protocol-parameter sets (full product of alphabet with the \
-             default store/pparams; stores x pparams with the default value). Language level: every tx of the corpus x every parameter x its boundary \
+             default store/pparams; stores x pparams with the default value). Constants of every kind and of sizes around 28 / 29 / 32 / 57 bytes in each of the 19 fields and in every key of every chain-specific directive; two-level trees whose outer context computes with its operand. Language level: every tx of the corpus x every parameter x its boundary \
              alphabet (one non-default argument at a time{}) x stores x pparams. Each combination is driven through resolve_tx and through \
              apply_args / apply_fees / reduce / compiler ops / apply_inputs / reduce / compile (continuing after errors) and a second round of compiler ops / compile on the same instance; every template also with its outputs removed and with every output optional and empty. Oracle: every call returns \
              Ok or Err. Non-trivial = at least one back-end call executed; distinct = (subject, argument, store, pparams).",
@@ -263,6 +326,35 @@ impl Prop for C14 {
         }
         for (name, src) in c13::corpus(tier) {
             sink.case(|| json!({"kind": "program", "file": name, "src": src}));
+        }
+        // constants of every kind and of odd sizes in every field and in every key of every chain-specific directive
+        for placement in 0..np {
+            sink.case(|| json!({"kind": "leaves", "placement": placement}));
+        }
+        for (d, (_, keys)) in DIRECTIVES.iter().enumerate() {
+            for k in 0..keys.len() {
+                sink.case(|| json!({"kind": "directive-leaves", "directive": d, "key": k}));
+            }
+        }
+        if !tier.is_thorough() {
+            // two-level trees whose outer context computes with its operand (arithmetic, concatenation, a query's
+            // threshold): one drive each with comfortable arguments
+            let cs = tirgen::contexts();
+            let outer: Vec<usize> = (0..n)
+                .filter(|i| {
+                    let l = cs[*i].label;
+                    l.starts_with("Add") || l.starts_with("Sub") || l.starts_with("Negate") || l.starts_with("Concat") || l.starts_with("Query.min_amount") || l.starts_with("Property(")
+                })
+                .collect();
+            for p in 0..PROBES.len() {
+                for placement in 0..np {
+                    for a in &outer {
+                        for b in 0..n {
+                            sink.case(|| json!({"kind": "ir", "probe": p, "placement": placement, "inner": b, "outer": a, "light": true}));
+                        }
+                    }
+                }
+            }
         }
         if tier.is_thorough() {
             for p in 0..PROBES.len() {
@@ -322,6 +414,21 @@ impl Prop for C14 {
             }
             return o;
         }
+        if case["kind"] == "leaves" || case["kind"] == "directive-leaves" {
+            for (name, leaf) in leaves() {
+                let (tx, at) = if case["kind"] == "leaves" {
+                    let placement = case["placement"].as_u64().unwrap_or(0) as usize;
+                    (tirgen::place(placement, leaf), tirgen::PLACEMENTS[placement].to_string())
+                } else {
+                    let (dname, keys) = DIRECTIVES[case["directive"].as_u64().unwrap_or(0) as usize];
+                    let key = keys[case["key"].as_u64().unwrap_or(0) as usize];
+                    (directive_tx(dname, keys, key, leaf), format!("{dname}.{key}"))
+                };
+                drive(&tx, &ArgMap::new(), &all_stores[0].1, &all_pp[0].1, &mut o, &json!({"leaf": name, "at": at}), "ir-level");
+                o.key(hash64(&(&at, name)));
+            }
+            return o;
+        }
         let id = TreeId {
             outer: case["outer"].as_u64().map(|x| x as usize),
             inner: case["inner"].as_u64().map(|x| x as usize),
@@ -339,6 +446,11 @@ impl Prop for C14 {
         let desc = tirgen::describe(&id);
         let params = find_params(&tx);
         let defaults: ArgMap = params.iter().map(|(k, ty)| (k.clone(), alphabet(ty, tier)[0].clone())).collect();
+        if case["light"].as_bool().unwrap_or(false) {
+            drive(&tx, &defaults, &all_stores[0].1, &all_pp[0].1, &mut o, &json!({"tree": desc, "args": "defaults"}), qual);
+            o.key(hash64(&(&desc, "light")));
+            return o;
+        }
         for (sn, st) in &all_stores {
             for (pn, pp) in &all_pp {
                 drive(&tx, &defaults, st, pp, &mut o, &json!({"tree": desc, "args": "defaults", "store": sn, "pparams": pn}), qual);
